@@ -32,8 +32,15 @@ def run(now, init_to, exit_to, jobs, workers):
         for k, s in enumerate((ti, tt, te)):
             comms._workers_time_task_started[w * 3 + k] = 0.0 if s is None else base + s
     killed = []
-    stop = threading.Event()
     ended = {'by_itself': True}
+
+    class OneRound(threading.Event):
+        # however the handler pauses between two rounds (time.sleep, or a wait on this event), the pause ends it
+        def wait(self, timeout=None):
+            ended['by_itself'] = False
+            self.set()
+            return True
+    stop = OneRound()
 
     class T:
         @staticmethod
@@ -51,7 +58,13 @@ def run(now, init_to, exit_to, jobs, workers):
     saved = (mpool.time, mc.time)
     mpool.time = mc.time = T
     try:
-        mpool.WorkerPool._timeout_handler(pool)
+        th = threading.Thread(target=mpool.WorkerPool._timeout_handler, args=(pool,), daemon=True)
+        th.start()
+        th.join(10.0)
+        if th.is_alive():
+            threading.Event.set(stop)
+            th.join(2.0)
+            raise RuntimeError('the handler did not finish one round')
     finally:
         mpool.time, mc.time = saved
     failed = []
